@@ -29,6 +29,7 @@ def run(ctx):
     funcs = {"variant_init_samples_and_index_map"}
     seen = lib_guards.analyse(ctx, P, funcs=funcs)
     lib_guards.presence(ctx, seen, funcs=funcs, P=P)
+    lib_py.decode_every(ctx, py)
     lib_variant.sample_walks(ctx, P, tus=("genotypes",), floor=1)
     lib_module.name_agreement(ctx, P, classes=("Variant",), floor=5)
     lib_py.facade_names(ctx, py, P, classes=(("genotypes", "Variant"),), floor=5)
